@@ -22,6 +22,10 @@ def _worker(pid, modname, fnname, kwargs, name, tier, seed, conn):
         import warnings
 
         warnings.filterwarnings("ignore")
+        if os.environ.get("VERIF_DEBUG"):
+            import faulthandler
+
+            faulthandler.dump_traceback_later(int(os.environ["VERIF_DEBUG"]), repeat=True)
         from vf import core, symx
 
         symx.Pure.reset()
